@@ -169,7 +169,7 @@ let () =
                   | 'R' -> Some PReflect | 'G' -> Some PGw2Nb | 'N' -> Some PNb2Gw | 'K' -> Some PKeys | 'F' -> Some PFilters | _ -> None)
                   (List.init (String.length (nth 2)) (String.get (nth 2))) in
               st := rstep ops fx !st (RCmd (s, RRemoveParams names)); true
-            | "m" ->
+            | "m" | "q" ->
               let sf = nth 5 in
               let fld = if sf = "" || sf = "-" then SAbsent else if sf = "I" then SOther
                 else SStr (List.map intern (split '&' (String.sub sf 1 (String.length sf - 1)))) in
@@ -197,6 +197,7 @@ let () =
               result := String.concat "," (List.map (fun x -> string_of_int (int_of_n x)) l); true
             | _ -> false
           end in
+        if not (code = "q" && valid) then begin
         let b = Buffer.create 512 in
         Buffer.add_string b (Printf.sprintf "%d %s%s M{" j code (if valid then "" else "!"));
         let firstc = ref true in
@@ -228,6 +229,7 @@ let () =
           (List.sort (fun a b -> compare (int_of_n a.ri_id) (int_of_n b.ri_id)) (rs_info ops !st))));
         Buffer.add_string b "}";
         Printf.printf "%d %s\n" k (Buffer.contents b)
+        end
       ) opl;
       if !unsupported then begin
         Printf.printf "%d ORACLE FAIL generator-error: a clause of this case lies outside the Ere.v regex model\n" k;
